@@ -32,6 +32,13 @@ func c01(p *core.Prog, r *core.Report) {
 	// the arguments only arrive if every fragment's checksum is the checksum
 	// of its own bytes: pooled checksum objects are not read after release and
 	// relays re-stamp what they rewrite (shared with C02-R4 / C02-R6)
+	// what the peer reads back: frames already queued for the call reach the
+	// reader before a connection error does (shared with C04-R4), and the
+	// scratch buffers of the byte codec that rewrites arguments are not
+	// touched after they went back to their pool (shared with C04-R7)
+	r.Rule("C01-R10", "E6 paths / E2 ownership", 3, "delivered frames are read before the connection error; codec scratch buffers are not used after release")
+	recvPriority(p, r, "C01-R10")
+	noUseAfterPut(p, r, "C01-R10", "/typed")
 	r.Rule("C01-R9", "E6 who-may-call + ordering", 6, "fragments carry the checksum of their own bytes (shared with C02)")
 	r.Alias("C02-R4", "C01-R9")
 	r.Alias("C02-R6", "C01-R9")
